@@ -212,7 +212,7 @@ func drawC08(t *rapid.T) *Case {
 		for ri := 0; ri < nr; ri++ {
 			tag := fmt.Sprintf("c%d-r%d", ci, ri)
 			rq := &c08Req{}
-			rq.Spec = ReqSpec{Tag: tag, Method: c08Methods[rapid.IntRange(0, len(c08Methods)-1).Draw(t, "method")], Path: drawPathQuery(t), Host: fmt.Sprintf("h%d.verif.test", ci)}
+			rq.Spec = ReqSpec{Tag: tag, Method: c08Methods[rapid.IntRange(0, len(c08Methods)-1).Draw(t, "method")], Path: drawPathQuery(t), Host: drawReqHost(t, ci)}
 			if drawBool(t, "hostport", 20) {
 				rq.Spec.Host += ":8443"
 			}
